@@ -84,6 +84,7 @@ PROPS = {
         "assumptions": COMMON_ASSUME + [
             "interleavings are sampled (OS scheduler + injected sleeps/herds/yields at the hook points), not enumerated; evidence reports retries, stale-snapshot commits and distinct commit orders actually observed",
             "deadlock is judged by an in-process quiescence watchdog (case running > 30 s, all worker threads sleeping, no CPU progress over 2 s), never by wall-clock alone",
+            "thorough tier only: 12 small starved matrices x 16 Miri scheduler seeds (cargo +nightly miri run, -Zmiri-many-seeds, preemption rate 0.05): each seed is one deterministic interleaving of the rayon workers, replayable by (case, seed); counts are in coverage.miri_scheduler_tier",
             "the weight of an entry is the library's c_weight (it is the definition of the Weight condition); unit-ness is judged independently",
         ],
         "technique": "trace monitor + final-state oracle: real find_pivots calls under hook-injected schedule perturbation and varying pool sizes; event log (PivCommit/PivRetry/...) checked for commit freshness and acyclicity, result checked for triangularity",
